@@ -44,7 +44,7 @@ def make_sender_chunks(rng, base, nmsg=None, streams=None):
 class C01(Check):
     prop = "C01"
     props_file = "Props/C01.v"
-    models = ["SctpRecv", "SctpSend"]
+    models = ["SctpRecv", "SctpSend", "Chan"]
     quick_cases = 1200
     thorough_cases = 30000
     case_timeout = 20.0
@@ -76,9 +76,14 @@ class C01(Check):
 
     def gen_case(self, rng, i):
         r = rng.random()
-        if r < 0.07:
+        if r < 0.10:
+            # what the data-channel layer hands to _send for a message (stream id, PPID, payload, ordered flag, and no
+            # lifetime / retransmission limit on a reliable channel): C13's layer cases against Model/Chan.v
+            from harness.props import c13 as C13mod
+            return {"k": 3, "c13": C13mod.gen_layer_case(rng)}
+        if r < 0.16:
             return self.gen_send_case(rng)
-        if r < 0.18:
+        if r < 0.30:
             # reliable channels alone, or sharing the association with partially reliable ones (the oracle
             # judges the reliable channels only; abandonment next door must not disturb them)
             if rng.random() < 0.5:
@@ -124,14 +129,20 @@ class C01(Check):
         return 0 if rng.random() < 0.7 else rng.choice([1, 50, 300, 1500, 5000])
 
     def model_name(self, case):
-        return {0: "SctpRecv", 2: "SctpSend"}.get(case["k"])
+        return {0: "SctpRecv", 2: "SctpSend", 3: "Chan"}.get(case["k"])
 
     def encode(self, case):
+        if case["k"] == 3:
+            from harness.props.c13 import C13
+            return C13().encode(case["c13"])
         if case["k"] == 2:
             return [case["tsn0"], case["msgs"], case["seqs"]]
         return [case["base"], case["events"], case.get("rwnd0", 0)]
 
     def describe_case(self, case):
+        if case["k"] == 3:
+            from harness.props.c13 import C13
+            return C13().describe_case(case["c13"])
         if case["k"] == 2:
             return {"k": 2, "tsn0": case["tsn0"], "seqs": case["seqs"], "msgs": [m[:3] + [len(m[3])] for m in case["msgs"]]}
         if case["k"] == 0:
@@ -143,6 +154,9 @@ class C01(Check):
     def impl_run(self, case):
         if case["k"] == 1:
             return SC.run_scenario(case)
+        if case["k"] == 3:
+            from harness.props.c13 import C13
+            return C13().impl_run(case["c13"])
         if case["k"] == 2:
             return M.run(self._send(case))
         return M.run(self._recv(case))
@@ -250,6 +264,18 @@ class C01(Check):
 
     # ------------------------------------------------------------ oracle
     def oracle(self, case, out):
+        if case["k"] == 3:
+            # a reliable channel's messages go to _send without a lifetime or a retransmission limit
+            for evs, state in out:
+                chans = {c[0][0]: c for c in state[0] if c[0]}
+                for e in evs:
+                    if e and e[0] == 5 and e[2] != 50 and e[1] in chans:
+                        c = chans[e[1]]
+                        if c[5] == [] and c[6] == [] and (e[5] != [] or e[6] != []):
+                            return ("reliable-message-sent-with-limit",
+                                    f"a message of the fully reliable channel with stream id {e[1]} was handed to _send with "
+                                    f"max_retransmits={e[5]} / lifetime={e[6]} ms: it can be abandoned")
+            return None
         if case["k"] == 2:
             for (sid, ordered, ppid, data), chunks in zip(case["msgs"], out):
                 if [b for c in chunks for b in c[7]] != list(data):
@@ -291,6 +317,8 @@ class C01(Check):
         return scenario_oracle_reliable(out)
 
     def nontrivial(self, case, out):
+        if case["k"] == 3:
+            return any(e and e[0] == 5 for evs, _ in out for e in evs)      # something was handed to _send
         if case["k"] == 2:
             return any(len(chunks) > 1 for chunks in out)
         if case["k"] == 0:
@@ -303,7 +331,9 @@ class C01(Check):
         d = {"recv_honest": 0, "recv_adversarial": 0, "scenario": 0, "events": 0, "deliveries": 0, "dups": 0,
              "fwd_tsn": 0, "scenario_msgs": 0, "send": 0, "send_msgs": 0, "send_fragments": 0, "send_ssn_wraps": 0}
         for c, o in zip(cases, outs):
-            if c["k"] == 2:
+            if c["k"] == 3:
+                d["channel_layer"] = d.get("channel_layer", 0) + 1
+            elif c["k"] == 2:
                 d["send"] += 1
                 d["send_msgs"] += len(c["msgs"])
                 d["send_fragments"] += sum(len(chunks) for chunks in o)
@@ -320,6 +350,8 @@ class C01(Check):
         return d
 
     def shrink_candidates(self, case):
+        if case["k"] == 3:
+            return
         key = {0: "events", 2: "msgs"}.get(case["k"], "ops")
         l = case[key]
         n = len(l)
